@@ -16,7 +16,7 @@ import TapkeeVerif.Gen.Statics
         -> evaluates the model stage on the data and on the transformed data and confirms the relation the
            theorems state (`thm=ok`); compares the implementation's observed pre-matrix with the model's
            (`pre=exact|approx|viol:i:j|none`)
-    conn nb=1,2;0,2;0,1            -> `<reach-from-0 decision> strong=<strong connectivity>`
+    conn nb=1,2;0,2;0,1            -> `<is_connected decision> strong=<strong connectivity> fwd=<reach from 0 alone>`
     center sh=e A=rows obs=rows     -> `exact` | `differ:i:j`     (model centerMatrix vs utils/matrix.hpp)
     trip n=3 T=i:j:v,... obs=rows   -> `exact` | `differ:i:j`     (model fromTriplets vs sparse_matrix_from_triplets)
     statics                        -> the generated table of static objects, one summary line -/
@@ -185,7 +185,7 @@ def showOB : Option Bool → String
 def answerConn (fs : List (String × String)) : String :=
   match field? fs "nb" >>= parseGraph with
   | none => "bad-graph"
-  | some ⟨_, G⟩ => s!"{showOB (reachCode G)} strong={showOB (strongCode G)}"
+  | some ⟨_, G⟩ => s!"{showOB (connectedCode G)} strong={showOB (strongCode G)} fwd={showOB (reachCode G)}"
 
 def firstDiff {n m : Nat} (A B : Mat n m Q) : String :=
   match (List.finRange n).findSome? fun i => (List.finRange m).findSome? fun j =>
